@@ -58,6 +58,7 @@ func init() {
 			"encoding/csv with FieldsPerRecord == 0 returns records with as many fields as the first record",
 		},
 		Rules: []Rule{
+			{Name: "G13", Doc: "the pointers the parent chase follows (Stop.Parent) address elements of the final stops list and that list is not compacted or re-allocated after they were taken: the acyclicity the G4 chase lemma relies on is that of the linked objects, not of stale slots", MinInstances: 8, Run: runRefRules},
 			{Name: "G1", Doc: "no nil dereference (E1)", MinInstances: 70, Run: func(c *Ctx) {
 				e, scope := c05Engine(c)
 				runG1(c, e)
